@@ -1,6 +1,13 @@
 pub mod swiftness_air {
 pub mod trace {
 //@include air/trace_config.rs
+//@include air/trace_mod.rs
 } // mod trace
 //@include air/domains.rs
+//@include air/types.rs
+//@include air/dynamic.rs
+//@include air/public_memory.rs
+pub mod layout {
+//@include air/layout_mod.rs
+} // mod layout
 } // mod swiftness_air
